@@ -320,7 +320,11 @@ class Message(MessageBase):  # add _expired attr
 
         def fraction_expired(lifespan: td) -> float:
             """Return the packet's age as fraction of its 'normal' life span."""
-            return (self._gwy._dt_now() - self.dtm - _TD_SECS_003) / lifespan
+            age = self._gwy._dt_now() - self.dtm - _TD_SECS_003
+            if not lifespan:  # e.g. 1F09 with remaining_seconds == 0
+                return self.HAS_EXPIRED if age >= lifespan else 0.0
+            # NOTE: never negative, as -1 is the CANT_EXPIRE sentinel
+            return max(0.0, age / lifespan)
 
         # 1. Look for easy win...
         if self._fraction_expired is not None:
